@@ -13,7 +13,7 @@ from . import aux
 from .annotate import annotate, Annotated, Undecided
 from .decl import Decl
 
-VERIF = '/verif'
+VERIF = os.environ.get('VERIF_HOME', '/verif')
 REPO = os.environ.get('VERIF_REPO', '/repo')
 WORK = os.environ.get('VERIF_WORK', os.path.join(VERIF, 'work'))
 TARGET = os.environ.get('VERIF_TARGET', os.path.join(VERIF, 'target'))
